@@ -107,8 +107,7 @@ func (ds *AnySource) RunDoneDeactivate() {
 	if ds.archiveBlock.active {
 		// An unfinished raw-data request is completed with the samples it has: its writer goroutine
 		// must not wait forever, nor must the next run append to it.
-		close(ds.archiveBlock.complete)
-		ds.archiveBlock.active = false
+		ds.finishArchiveBlock()
 	}
 	ds.sourceStateLock.Lock()
 	ds.sourceState = Inactive
@@ -298,8 +297,27 @@ type archiveableDataBlock struct {
 	dataBlock
 	earliestTime     time.Time
 	requestedSamples int
-	complete         chan struct{}
+	complete         chan *archivedData // hands the finished data to the goroutine that writes the file
 	active           bool
+}
+
+// archivedData is a finished raw-data archive, detached from the source: the goroutine that writes it to
+// a file works on this alone and never looks at the (still running, or restarting) source.
+type archivedData struct {
+	segments                 []DataSegment
+	externalTriggerRowcounts []int64
+	channelNames             []string
+}
+
+// finishArchiveBlock ends the collection of raw data and passes what was collected to the file writer.
+// Call it only from the goroutine that owns the data flow (the core loop).
+func (ds *AnySource) finishArchiveBlock() {
+	ab := &ds.archiveBlock
+	ab.active = false
+	ab.complete <- &archivedData{segments: ab.segments, externalTriggerRowcounts: ab.externalTriggerRowcounts,
+		channelNames: append([]string(nil), ds.chanNames...)}
+	ab.segments = nil
+	ab.externalTriggerRowcounts = nil
 }
 
 // AnySource implements features common to any object that implements
@@ -413,8 +431,7 @@ func (ds *AnySource) archiveNewDataBlock(block *dataBlock) {
 
 	requestFilled := ab.nSamp >= ab.requestedSamples
 	if requestFilled {
-		close(ab.complete)
-		ab.active = false
+		ds.finishArchiveBlock()
 	}
 }
 
@@ -1103,12 +1120,11 @@ func (ds *AnySource) StopTriggerCoupling() error {
 	return ds.broker.StopTriggerCoupling()
 }
 
-func (ds *AnySource) writeNPZData(file *os.File) error {
+func writeNPZData(file *os.File, ab *archivedData) error {
 	wz := npz.NewWriter(file)
 	defer wz.Close()
 
-	ab := ds.archiveBlock
-	channelNames := ds.ChannelNames()
+	channelNames := ab.channelNames
 	firstFrame := make([]int64, len(ab.segments))
 	for i, stream := range ab.segments {
 		data := stream.rawData
@@ -1140,14 +1156,16 @@ func (ds *AnySource) ArchiveDataBlock(N int, file *os.File, finalName string) er
 	ds.archiveBlock.earliestTime = time.Now()
 	ds.archiveBlock.requestedSamples = N
 	ds.archiveBlock.segments = nil
-	ds.archiveBlock.complete = make(chan struct{})
+	ds.archiveBlock.externalTriggerRowcounts = nil
+	complete := make(chan *archivedData, 1)
+	ds.archiveBlock.complete = complete
 	ds.archiveBlock.active = true
 
-	// Launch this goroutine, which will execute when the ds.archiveBlock.complete channel is closed
+	// Launch this goroutine, which will execute when the finished data arrive on the complete channel
 	go func() {
 		// When the archiveBlock is filled, write to npz file.
-		<-ds.archiveBlock.complete
-		if err := ds.writeNPZData(file); err != nil {
+		data := <-complete
+		if err := writeNPZData(file, data); err != nil {
 			file.Close()
 		}
 
